@@ -10,6 +10,7 @@ package vt
 import (
 	"bytes"
 	"fmt"
+	"regexp"
 	"strconv"
 	"strings"
 	"unicode/utf8"
@@ -918,6 +919,9 @@ func (t *Term) sgr(ps [][]int, seq []byte) {
 	}
 }
 
+// residue: an unexpanded terminfo directive (%p1, %d, %s, %{..}) inside a control string
+var residue = regexp.MustCompile(`%p[1-9]|%[0-9.]*[ds]|%\{[0-9]+\}|%[?;]`)
+
 func (t *Term) osc(s string) {
 	t.CtlBytes += len(s) + 3
 	if !utf8.ValidString(s) && t.dec == nil {
@@ -926,6 +930,9 @@ func (t *Term) osc(s string) {
 	num, rest := s, ""
 	if i := strings.IndexByte(s, ';'); i >= 0 {
 		num, rest = s[:i], s[i+1:]
+	}
+	if residue.MatchString(s) {
+		t.errf("OSC string %q contains residue of the terminfo parameter language", s)
 	}
 	switch num {
 	case "0", "2":
